@@ -1,30 +1,43 @@
 #!/usr/bin/env python3
-"""tools/reseed.py: re-run every stored seed (seeded/*/patch.diff) against the current machinery and refresh meta.json['checks'].
-Prints one line per seed; a seed whose property check does not exit 1 is flagged MISSED."""
+"""tools/reseed.py [-j N] [name...]: re-run every stored seed (seeded/*/patch.diff) against the current machinery, in parallel scratch
+worktrees, and refresh meta.json['checks']. One line per seed; a seed whose property check does not exit 1 is flagged MISSED."""
 import json, os, subprocess, sys, glob
+from concurrent.futures import ThreadPoolExecutor
 VERIF = os.path.dirname(os.path.dirname(os.path.abspath(__file__)))
-missed = []
-for d in sorted(glob.glob(os.path.join(VERIF, 'seeded', '*'))):
+args = sys.argv[1:]
+jobs = 4
+if args and args[0] == '-j':
+    jobs = int(args[1]); args = args[2:]
+dirs = [d for d in sorted(glob.glob(os.path.join(VERIF, 'seeded', '*'))) if os.path.exists(os.path.join(d, 'meta.json')) and (not args or os.path.basename(d) in args)]
+
+
+def one(d):
     mp = os.path.join(d, 'meta.json')
-    if not os.path.exists(mp):
-        continue
     meta = json.load(open(mp))
     props = meta['property'] if isinstance(meta['property'], list) else [meta['property']]
     demo = os.path.join(d, 'demo.rs')
     env = dict(os.environ)
-    if props[0] == 'C16':
+    if props[0] in ('C16',) or 'serde' in open(demo).read() if os.path.exists(demo) else False:
         env['SEED_FEATURES'] = 'serde'
     out = subprocess.run([sys.executable, os.path.join(VERIF, 'tools', 'seedrun.py'), os.path.join(d, 'patch.diff'), demo if os.path.exists(demo) else '-'] + props,
                          capture_output=True, text=True, env=env).stdout
     try:
         res = json.loads(out[out.index('{'):])
     except ValueError:
-        print(os.path.basename(d), 'ERROR', out[-300:]); continue
+        return os.path.basename(d), None, 'ERROR ' + out[-300:]
     meta['checks'] = res['checks']
     json.dump(meta, open(mp, 'w'), indent=1, ensure_ascii=False)
     exits = {k: v['exit'] for k, v in res['checks'].items()}
     vfail = sorted(set(l.split()[1] for v in res['checks'].values() for l in v['lines'] if l.startswith('V ') and ' failed ' in l))
-    flag = '' if all(e == 1 for e in exits.values()) else '  <== MISSED'
-    if flag: missed.append(os.path.basename(d))
-    print(os.path.basename(d), exits, 'V-rejected:', ','.join(vfail) or '-', flag, flush=True)
+    ok = all(e == 1 for e in exits.values())
+    conf = all(res.get(k) for k in ('applies', 'suite_passes_patched')) and (res.get('demo_fails_patched', True)) and (res.get('demo_passes_unchanged', True))
+    return os.path.basename(d), ok, '%s V-rejected: %s%s%s' % (exits, ','.join(vfail) or '-', '' if ok else '  <== MISSED', '' if conf else '  (demo/suite not confirmed: %s)' % {k: res.get(k) for k in ('applies', 'suite_passes_patched', 'demo_fails_patched', 'demo_passes_unchanged')})
+
+
+missed = []
+with ThreadPoolExecutor(jobs) as ex:
+    for name, ok, line in ex.map(one, dirs):
+        print(name, line, flush=True)
+        if not ok:
+            missed.append(name)
 print('missed:', missed)
